@@ -327,17 +327,7 @@ func c02r4(c *Ctx) {
 	}
 	for _, t := range c.successTargets(rfe) {
 		v := t.Ret.Results[1]
-		ok := mustDepend(rfe, v, func(x ssa.Value) bool {
-			ia, k := x.(*ssa.IndexAddr)
-			if !k {
-				return false
-			}
-			idx, isC := constInt(ia.Index)
-			if !isC || idx != 0 {
-				return false
-			}
-			return c.filledBy(rfe, ia.X, rwc.Object(), 2, 3)
-		})
+		ok := mustDepend(rfe, v, func(x ssa.Value) bool { return c.isWireByte0(rfe, x, rwc.Object(), 2, 2) })
 		c.Check(ok, rule, fnName(rfe)+"#flag-result", "returned end flag is byte 0 of the header read from the wire", "returned end flag is not byte 0 of the header read from the wire", t.Ret.Pos())
 	}
 }
